@@ -301,7 +301,19 @@ fn corrupt_matrix(rng: &mut Rng, text: &str) -> Vec<u8> {
         1 => return b"\n  \n\t\n".to_vec(),
         2 => lines.truncate(hdr + 1),
         3 => lines[hdr] = "abc def".into(),
-        4 => lines[hdr] = format!("-{}", lines[hdr].trim()),
+        4 => {
+            // header with one acceptable and one unacceptable size (other than the current sizes)
+            let d: Vec<i64> = lines[hdr].split_whitespace().filter_map(|x| x.parse().ok()).collect();
+            let (l, r) = (d.first().cloned().unwrap_or(1), d.get(1).cloned().unwrap_or(1));
+            let other = |rng: &mut Rng, v: i64| [v + 1, v + 9, (v / 2).max(1), 1, 300][rng.below(5)];
+            let bad = ["-1", "-32768", "x", "", "40000", "99999999999"][rng.below(6)];
+            lines[hdr] = match rng.below(4) {
+                0 => format!("-{}", lines[hdr].trim()),
+                1 => format!("{} {}", other(rng, l), bad),
+                2 => format!("{} {}", bad, other(rng, r)),
+                _ => format!("{} {}", other(rng, l), other(rng, r)),
+            };
+        }
         5 => lines[hdr] = "3".into(),
         6 => {
             // coordinate at / beyond the dimension
@@ -515,9 +527,17 @@ impl Engine for BuildSim {
                 0 => ops.push(BuildOp::Compile { faults: false }),
                 1 if !user => {
                     matrices.push(Blob::from_bytes(corrupt_matrix(&mut rng, &spec.matrix)));
-                    // a smaller valid matrix is the interesting re-read
-                    if rng.chance(1, 2) {
-                        matrices[1] = Blob::Text("2 2\n0 0 1\n0 1 2\n1 0 3\n1 1 4\n".into());
+                    // a smaller valid matrix is the interesting re-read; so is a header of which only one size is acceptable
+                    match rng.below(4) {
+                        0 | 1 => matrices[1] = Blob::Text("2 2\n0 0 1\n0 1 2\n1 0 3\n1 1 4\n".into()),
+                        2 => {
+                            let n = rec.matrix.num_left as i64;
+                            let good = [n + 1, n + 7, (n / 2).max(1), 1][rng.below(4)];
+                            let bad = ["-1", "-32768", "x", "40000"][rng.below(4)];
+                            let hdr = if rng.chance(1, 2) { format!("{} {}", good, bad) } else { format!("{} {}", bad, good) };
+                            matrices[1] = Blob::Text(format!("{}\n0 0 1\n", hdr));
+                        }
+                        _ => {}
                     }
                     ops.push(BuildOp::ReadConn { m: 1 });
                     if rng.chance(1, 2) {
